@@ -110,10 +110,11 @@ def run(chk, args):
         "names: every cell of the TLC matrix (10 kinds x 14 written forms) for one representative parameter of each "
         "kind present in each model, offered to each interface; selection: TLC-enumerated mask/NaN/qmin/qmax patterns "
         "on 4 points, 1-D and 2-D, through DirectModel and the bumps wrapper; agreement: random requests (dispersity "
-        "on up to 2 parameters, 1-D/2-D, multiplicity models, structure factors) through five interfaces.")
+        "on up to 2 parameters, 1-D/2-D, multiplicity models, structure factors) through five interfaces, plus the SasView-style object with array distributions (parametric points, and free-form points with unnormalised and zero weights).")
     chk.assumptions += [
         "bumps is not installed: a 20-line stub of bumps.parameter (Parameter.default, Reference) stands in, as the property allows",
-        "array distributions (ArrayDispersion) are not exercised",
+        "array distributions exist only in the SasView-style interface: they are compared with the parametric request "
+        "whose points and weights they carry, and free-form ones with the same mesh handed to the kernel directly",
         "the same cutoff (1e-5) is forced in all interfaces; the SasView wrapper builds its own mesh (tolerance 1e-13)",
         "vector elements beyond the multiplicity are not offered to the SasView-style instance",
     ]
